@@ -67,11 +67,14 @@ package sender
 //@ spec func isSourceFS(h: int): bool
 //@ spec func fileSrc(f: int): int
 
+// (I/O errors are never the fs.SkipDir sentinel)
 //@ extern (sender.FileSource).Open params s, name
 //@   effect srcread(data(s))
 //@   ensures err != nil ==> result == nil
+//@   ensures !isSkipDir(err)
 //@ extern (sender.FileSource).Readlink params s, name
 //@   effect srcread(data(s))
+//@   ensures !isSkipDir(err)
 //@ extern (sender.FileSource).FS params s
 //@   ensures isSourceFS(fsOf(data(result)))
 //@ extern (sender.FileSource).Close params s
